@@ -7,6 +7,7 @@ pub mod c11;
 pub mod c12;
 pub mod c13;
 pub mod c14;
+pub mod c15;
 pub mod c16;
 
 use crate::ctx::Ctx;
@@ -24,6 +25,7 @@ pub fn lookup(id: &str) -> Option<CheckFn> {
         "C12" => c12::run,
         "C13" => c13::run,
         "C14" => c14::run,
+        "C15" => c15::run,
         "C16" => c16::run,
         _ => return None,
     })
